@@ -867,7 +867,7 @@ func replayC46(env *mc.Env, raw json.RawMessage) (bool, string) {
 
 func init() {
 	mc.Register(&mc.Check{
-		ID: "C46",
+		ID:   "C46",
 		Rule: "direct calls of rlp.DecodeString/DecodeList (accept = no error and bytesRead == len) on: every byte string of length <= 3; a corpus of canonical encodings of nested items of depth <= 2 with lengths {0,1,55,56,255,256,65535,65536} plus every single-byte edit of their first 12 bytes, truncations and one trailing byte; every long-form prefix with 1..8 length bytes from {00,01,37,38,7f,80,ff} bare, +56 zero bytes, + exactly the announced number of bytes when <= 4096, and wrapped as the only item of a short list (for <= 6 length bytes also +1 byte, with a wrong length-of-length, and wrapped next to a second item); RLP.decodeString/decodeList scripts in interpreter and VM on a subset. Every execution compared with an independent strict reference decoder. non-trivial = distinct input the reference accepts (or puts in the don't-care cell)",
 		Assumptions: []string{
 			"the reference decoder in c46_rlp.go (written from the RLP definition, uint64 length arithmetic) is right",
